@@ -4,6 +4,7 @@ package util
 
 import (
 	"crypto/subtle"
+	"strings"
 
 	"github.com/fatedier/frp/verif"
 )
@@ -53,4 +54,39 @@ func verif_ConstantTimeEqString(a, b string) {
 	eq := ConstantTimeEqString(a, b)
 	verif.Ensures(eq == (a == b), "equal_iff_the_same_string")
 	verif.Ensures(verif.CallCount("subtle.ConstantTimeCompare") == 1 && verif.Same(verif.NthArg[[]byte]("subtle.ConstantTimeCompare", 0, 0), []byte(a)) && verif.Same(verif.NthArg[[]byte]("subtle.ConstantTimeCompare", 0, 1), []byte(b)), "whole_strings_compared_in_constant_time")
+}
+
+// ParseRangeNumbers (the number lists of the configuration templates; C18 "a
+// proxy definition means the same in every format": the ini-style port ranges
+// accept blanks around each number - "6000 - 6002" - and so must this): every
+// number is parsed from the blank-trimmed text of its own piece, on the
+// iterations that complete and on the ones that end in an error.
+//
+//verif:loopbody ~/pkg/util/util.ParseRangeNumbers 1 check=verifEachNumberTrimmed
+//verif:loopexit ~/pkg/util/util.ParseRangeNumbers 1 check=verifEachNumberTrimmed
+func verifEachNumberTrimmed() bool {
+	const evParse = "strconv.ParseInt"
+	if !verif.CalledInIter(evParse) {
+		return true
+	}
+	parts := verif.IterRet[[]string]("strings.Split", 0)
+	last := verif.IterArg[string](evParse, 0)
+	if len(parts) == 1 {
+		return last == strings.TrimSpace(parts[0])
+	}
+	if len(parts) == 2 {
+		if verif.CalledInIter(evParse + "@1") {
+			return last == strings.TrimSpace(parts[1]) && verif.IterArg[string](evParse+"@1", 0) == strings.TrimSpace(parts[0])
+		}
+		return last == strings.TrimSpace(parts[0])
+	}
+	return false
+}
+
+//verif:contract ~/pkg/util/util.ParseRangeNumbers
+//verif:props C18
+//verif:kinds loop
+func verif_ParseRangeNumbers(rangeStr string) {
+	verif.ResetEvents()
+	_, _ = ParseRangeNumbers(rangeStr)
 }
